@@ -265,6 +265,23 @@ func run(c *mon.Ctx) {
 	c.Floor("aligned_pusi.false", 500)
 	per := c.N(40, 300000)
 	c.Exhaustive("all 256 stream ids x 3 PTS_DTS_flags values", 768)
+	c.Floor("concurrent.calls", 5000)
+	c.Stream("concurrent-decoders", c.N(3, 150), func(i int, r *gen.Rand) {
+		c.Concurrent("pes.NewPESHeader", 8, 250, r, func(q *gen.Rand) string {
+			sid := 0xc0 + q.Intn(0x30)
+			h := genPES(q, sid, q.PickByte([]byte{0, 2, 3}))
+			b, hdrEnd := h.Bytes()
+			ph, err := pes.NewPESHeader(q.Slack(b))
+			if err != nil || ph == nil {
+				return fmt.Sprintf("a well-formed header was rejected: %v (%s)", err, shape(&h))
+			}
+			if ph.StreamId() != h.StreamID || ph.HasPTS() != (h.PTSDTS >= 2) || ph.HasDTS() != (h.PTSDTS == 3) || (h.PTSDTS >= 2 && ph.PTS() != h.PTS) || (h.PTSDTS == 3 && ph.DTS() != h.DTS) || !bytes.Equal(ph.Data(), b[hdrEnd:]) {
+				return "decoded values differ from the encoded ones (" + shape(&h) + ")"
+			}
+			return ""
+		})
+		c.Class("concurrent-decoders")
+	})
 	c.Stream("by-stream-id", 256, func(sid int, r *gen.Rand) {
 		for k := 0; k < per; k++ {
 			h := genPES(r, sid, []byte{0, 2, 3}[k%3])
